@@ -1,4 +1,6 @@
 import Prom.Lemmas.C09Aux
+import Prom.Lemmas.GatheredNames
+import Prom.Props.C07
 
 namespace Prom.C09
 open Prom
@@ -166,5 +168,182 @@ example : (Desc.new (strOfString "a:b_9") (strOfString "h") [strOfString "x", st
 /-- the F4 witness is refused by the model of the repaired code -/
 example : Desc.new (strOfString "z") (strOfString "h") [strOfString "a"]
     [(strOfString "a", strOfString "1")] = none := by decide +kernel
+
+
+/-! ### what reaches a gathered sample -/
+
+/-- a descriptor produced by `Desc::new` (every library metric describes itself through it) -/
+def DescOk (d : Desc) : Prop := ∃ fq help vl cl, Desc.new fq help vl cl = some d
+
+theorem descOk_fields {d : Desc} (h : DescOk d) :
+    isValidMetricName d.fqName = true ∧
+    (∀ n ∈ d.varLabels ++ d.constPairs.map (·.name), isValidLabelName n = true) ∧
+    (d.varLabels ++ d.constPairs.map (·.name)).Nodup := by
+  obtain ⟨fq, help, vl, cl, hnew⟩ := h
+  have hacc := (desc_accept_iff fq help vl cl).1 (by rw [hnew]; rfl)
+  obtain ⟨_, hfq, hcl, hvl, hnd⟩ := hacc
+  have hd : d.fqName = fq ∧ d.varLabels = vl ∧ d.constPairs = stableSortBy lpLe (cl.map fun p => ⟨p.1, p.2⟩) := by
+    unfold Desc.new at hnew
+    split at hnew
+    · cases hnew
+    · split at hnew
+      · cases hnew
+      · split at hnew
+        · cases hnew
+        · split at hnew
+          · cases hnew
+          · cases hnew; exact ⟨rfl, rfl, rfl⟩
+  obtain ⟨h1, h2, h3⟩ := hd
+  have hperm : (d.constPairs.map (·.name)).Perm (cl.map (·.1)) := by
+    rw [h3]
+    refine ((stableSortBy_perm lpLe _).map (·.name)).trans ?_
+    simp [List.map_map, Function.comp_def]
+  refine ⟨h1 ▸ hfq, ?_, ?_⟩
+  · intro n hn
+    rcases List.mem_append.1 hn with hn | hn
+    · exact hvl n (h2 ▸ hn)
+    · obtain ⟨p, hp, rfl⟩ := List.mem_map.1 (hperm.subset hn)
+      exact hcl p hp
+  · rw [h2]
+    have : (vl ++ d.constPairs.map (·.name)).Perm (cl.map (·.1) ++ vl) :=
+      (List.Perm.append_left vl hperm).trans List.perm_append_comm
+    exact this.nodup_iff.2 hnd
+
+/-- a collector built from this library's metric types: its descriptors come from `Desc::new`, every
+    family it collects carries the name of one of them and every sample's labels are that
+    descriptor's `make_label_pairs` -/
+def LibColl (c : Coll) : Prop :=
+  (∀ d ∈ c.descs, DescOk d) ∧
+  ∀ f ∈ c.fams, ∃ d ∈ c.descs, f.name = d.fqName ∧ ∀ s ∈ f.samples, ∃ vals, makeLabelPairs d vals = .ok s.labels
+
+/-- what `Registry::new_custom` and `register` establish and `unregister` keeps -/
+structure RegOk (r : Reg) : Prop where
+  pref : ∀ p, r.pref = some p → isValidMetricName p = true
+  labels : ∀ m, r.labels = some m → (∀ kv ∈ m, isValidLabelName kv.1 = true) ∧ (m.map (·.1)).Nodup
+  colls : ∀ p ∈ r.collectors, LibColl p.2 ∧ ∀ d ∈ p.2.descs, clashesCommon r.labels d = false
+
+/-- `new_custom` (the label map is a `HashMap`: its keys are pairwise distinct) -/
+theorem regOk_newCustom (pref : Option Str) (labels : Option (List (Str × Str)))
+    (hk : ∀ m, labels = some m → (m.map (·.1)).Nodup) (r : Reg) (h : Reg.newCustom pref labels = some r) : RegOk r := by
+  have hr : r = { labels := labels, pref := pref } ∧
+      (∀ p, pref = some p → isValidMetricName p = true) ∧
+      (∀ m, labels = some m → ∀ kv ∈ m, isValidLabelName kv.1 = true) := by
+    cases pref <;> cases labels <;>
+      simp only [Reg.newCustom, Bool.true_and, Bool.and_true, Bool.and_eq_true, List.all_eq_true] at h <;>
+      split at h <;> first
+        | (cases h; done)
+        | (cases h; simp_all; done)
+        | (cases h; simp_all; rename_i hh; first | exact hh | exact hh.2)
+  obtain ⟨rfl, h1, h2⟩ := hr
+  exact ⟨fun p hp => h1 p hp, fun m hm => ⟨h2 m hm, hk m hm⟩, fun p hp => by cases hp⟩
+
+theorem regOk_register {r : Reg} (hr : RegOk r) (c : Coll) (hc : LibColl c) : RegOk (r.register c).1 := by
+  unfold Reg.register
+  split
+  · exact hr
+  · next ids nd cid hloop =>
+    split
+    · exact hr
+    · refine ⟨hr.pref, hr.labels, ?_⟩
+      intro p hp
+      rcases List.mem_append.1 hp with hp | hp
+      · exact hr.colls p hp
+      · simp only [List.mem_singleton] at hp; subst hp
+        exact ⟨hc, regLoop_noclash r c.descs [] [] 0 _ hloop⟩
+
+theorem regOk_unregister {r : Reg} (hr : RegOk r) (c : Coll) : RegOk (r.unregister c).1 := by
+  unfold Reg.unregister
+  simp only
+  split
+  · exact ⟨hr.pref, hr.labels, fun p hp => hr.colls p (List.mem_filter.1 hp).1⟩
+  · exact hr
+
+/-- **gathered_names_valid** — every sample returned by `gather()` of a registry built by
+    `new_custom` and any history of registrations of library collectors has a valid metric name
+    (registry prefix included) and valid, pairwise distinct label names (the metric's own const and
+    variable labels plus the registry's common labels) -/
+theorem gathered_names_valid {r : Reg} (hr : RegOk r) :
+    ∀ f ∈ r.gather, isValidMetricName f.name = true ∧
+      ∀ s ∈ f.samples, (∀ l ∈ s.labels, isValidLabelName l.name = true) ∧ (s.labels.map (·.name)).Nodup := by
+  intro f hf
+  unfold Reg.gather at hf
+  obtain ⟨g, hg, hname, _, _, ss, hss, hsamples⟩ :=
+    C07.gather_family_samples r.pref r.labels (r.collectors.flatMap (·.2.fams)) f hf
+  -- a non-empty merged family: pick the collected family (and its collector) it comes from
+  have origin : ∀ s ∈ g.samples, ∃ p ∈ r.collectors, ∃ d ∈ p.2.descs, g.name = d.fqName ∧
+      ∃ vals, makeLabelPairs d vals = .ok s.labels := by
+    intro s hs
+    obtain ⟨f0, hf0, hn0, hs0⟩ := merged_sample_origin _ g hg s hs
+    obtain ⟨p, hp, hfp⟩ := List.mem_flatMap.1 hf0
+    obtain ⟨d, hd, hfd, hsd⟩ := (hr.colls p hp).1.2 f0 hfp
+    exact ⟨p, hp, d, hd, by rw [← hn0, hfd], hsd s hs0⟩
+  constructor
+  · -- the name
+    have hne := C07.no_empty_family _ g hg
+    obtain ⟨s0, hs0⟩ := List.exists_mem_of_ne_nil _ hne
+    obtain ⟨p, hp, d, hd, hgn, _⟩ := origin s0 hs0
+    have hv : isValidMetricName g.name = true := by
+      rw [hgn]; exact (descOk_fields ((hr.colls p hp).1.1 d hd)).1
+    rw [hname]
+    cases hpref : r.pref with
+    | none => simpa [applyPrefix] using hv
+    | some pr => simpa [applyPrefix] using prefixed_name_valid (hr.pref pr hpref) hv
+  · intro s hs
+    rw [hsamples] at hs
+    obtain ⟨s1, hs1, rfl⟩ := List.mem_map.1 hs
+    have hs1g : s1 ∈ g.samples := hss.subset hs1
+    obtain ⟨p, hp, d, hd, _, vals, hmk⟩ := origin s1 hs1g
+    have hfields := descOk_fields ((hr.colls p hp).1.1 d hd)
+    have hown := makeLabelPairs_names hmk
+    have hnoclash := (hr.colls p hp).2 d hd
+    simp only
+    cases hl : r.labels with
+    | none =>
+      simp only [commonPairs, List.append_nil]
+      refine ⟨?_, hown.nodup_iff.2 hfields.2.2⟩
+      intro l hl'
+      exact hfields.2.1 l.name (hown.subset (List.mem_map.2 ⟨l, hl', rfl⟩))
+    | some m =>
+      have hcommon := commonPairs_names m
+      obtain ⟨hmvalid, hmnodup⟩ := hr.labels m hl
+      refine ⟨?_, ?_⟩
+      · intro l hl'
+        rcases List.mem_append.1 hl' with h1 | h1
+        · exact hfields.2.1 l.name (hown.subset (List.mem_map.2 ⟨l, h1, rfl⟩))
+        · obtain ⟨kv, hkv, hk⟩ := List.mem_map.1 (hcommon.subset (List.mem_map.2 ⟨l, h1, rfl⟩))
+          rw [← hk]; exact hmvalid kv hkv
+      · rw [List.map_append, List.nodup_append]
+        refine ⟨hown.nodup_iff.2 hfields.2.2, hcommon.nodup_iff.2 hmnodup, ?_⟩
+        intro a ha b hb hab
+        subst hab
+        have ha' := hown.subset ha
+        obtain ⟨kv, hkv, hk⟩ := List.mem_map.1 (hcommon.subset hb)
+        -- `a` is one of the descriptor's own label names and a key of the common label map: refused at registration
+        rw [hl] at hnoclash
+        simp only [clashesCommon, List.any_eq_false, List.any_eq_true, not_exists, not_and, beq_iff_eq] at hnoclash
+        have hmem : a ∈ d.constPairs.map (·.name) ++ d.varLabels := by
+          rcases List.mem_append.1 ha' with h | h
+          · exact List.mem_append_right _ h
+          · exact List.mem_append_left _ h
+        exact hnoclash a hmem kv hkv hk
+
+/-- … over whole histories: registrations (of library collectors) and unregistrations keep `RegOk` -/
+inductive RegOp | register (c : Coll) | unregister (c : Coll)
+
+def applyOp (r : Reg) : RegOp → Reg
+  | .register c => (r.register c).1
+  | .unregister c => (r.unregister c).1
+
+theorem regOk_history (ops : List RegOp) (hl : ∀ op ∈ ops, ∀ c, op = .register c → LibColl c) :
+    ∀ r, RegOk r → RegOk (ops.foldl applyOp r) := by
+  induction ops with
+  | nil => intro r h; exact h
+  | cons op rest ih =>
+    intro r h
+    simp only [List.foldl_cons]
+    refine ih (fun o ho c hc => hl o (List.mem_cons_of_mem _ ho) c hc) _ ?_
+    cases op with
+    | register c => exact regOk_register h c (hl _ (by simp) c rfl)
+    | unregister c => exact regOk_unregister h c
 
 end Prom.C09
